@@ -191,6 +191,49 @@ func DetectFromReader(r io.ReaderAt, size int64) (Format, error) {
 	return Unknown, nil
 }
 
+// formatFromMimetype reads a mimetype member and returns ODT or EPUB if it names one.
+func formatFromMimetype(f *zip.File) Format {
+	rc, err := f.Open()
+	if err != nil {
+		return Unknown
+	}
+	data := make([]byte, 256)
+	n, _ := rc.Read(data)
+	rc.Close()
+	mimeType := strings.TrimSpace(string(data[:n]))
+	if strings.Contains(mimeType, "application/vnd.oasis.opendocument.text") {
+		return ODT
+	}
+	if mimeType == "application/epub+zip" {
+		return EPUB
+	}
+	return Unknown
+}
+
+// formatFromContentTypes reads [Content_Types].xml and returns the Office Open
+// XML format whose main part it declares, or Unknown.
+func formatFromContentTypes(f *zip.File) Format {
+	rc, err := f.Open()
+	if err != nil {
+		return Unknown
+	}
+	data, err := io.ReadAll(io.LimitReader(rc, 1<<20))
+	rc.Close()
+	if err != nil {
+		return Unknown
+	}
+	types := string(data)
+	switch {
+	case strings.Contains(types, "wordprocessingml.document.main") || strings.Contains(types, "wordprocessingml.template.main"):
+		return DOCX
+	case strings.Contains(types, "spreadsheetml.sheet.main") || strings.Contains(types, "spreadsheetml.template.main"):
+		return XLSX
+	case strings.Contains(types, "presentationml.presentation.main") || strings.Contains(types, "presentationml.slideshow.main") || strings.Contains(types, "presentationml.template.main"):
+		return PPTX
+	}
+	return Unknown
+}
+
 // detectZIPFormat inspects a ZIP archive to determine if it's DOCX, XLSX, PPTX, ODT, EPUB, etc.
 func detectZIPFormat(r io.ReaderAt, size int64) (Format, error) {
 	zr, err := zip.NewReader(r, size)
@@ -198,21 +241,29 @@ func detectZIPFormat(r io.ReaderAt, size int64) (Format, error) {
 		return Unknown, err
 	}
 
-	// Check for OpenDocument Format and EPUB first (both have mimetype file at the start)
+	// A package declares its own format: OpenDocument and EPUB by a mimetype
+	// member stored first, Office Open XML by the main part's content type in
+	// [Content_Types].xml. Look at the declaration before looking for marker
+	// members, which a package of one format may also carry from another
+	// (a stray META-INF/container.xml, an embedded workbook part).
+	if len(zr.File) > 0 && zr.File[0].Name == "mimetype" {
+		if f := formatFromMimetype(zr.File[0]); f != Unknown {
+			return f, nil
+		}
+	}
+	for _, f := range zr.File {
+		if f.Name == "[Content_Types].xml" {
+			if format := formatFromContentTypes(f); format != Unknown {
+				return format, nil
+			}
+		}
+	}
+
+	// Check for OpenDocument Format and EPUB (a mimetype member anywhere)
 	for _, f := range zr.File {
 		if f.Name == "mimetype" {
-			rc, err := f.Open()
-			if err == nil {
-				data := make([]byte, 256)
-				n, _ := rc.Read(data)
-				rc.Close()
-				mimeType := strings.TrimSpace(string(data[:n]))
-				if strings.Contains(mimeType, "application/vnd.oasis.opendocument.text") {
-					return ODT, nil
-				}
-				if mimeType == "application/epub+zip" {
-					return EPUB, nil
-				}
+			if format := formatFromMimetype(f); format != Unknown {
+				return format, nil
 			}
 		}
 	}
